@@ -85,11 +85,21 @@ type fragReader struct {
 	ci     int
 	closes int
 	reads  int
+	// I/O fault: once `data` has been delivered the reader fails with errIOFault
+	// (a connection reset) instead of reporting io.EOF; failWithData returns the
+	// error together with the last bytes.
+	fail         bool
+	failWithData bool
 }
+
+var errIOFault = errors.New("injected read error: connection reset")
 
 func (f *fragReader) Read(p []byte) (int, error) {
 	f.reads++
 	if len(f.data) == 0 {
+		if f.fail {
+			return 0, errIOFault
+		}
 		return 0, io.EOF
 	}
 	n := len(p)
@@ -105,7 +115,33 @@ func (f *fragReader) Read(p []byte) (int, error) {
 	}
 	copy(p, f.data[:n])
 	f.data = f.data[n:]
+	if len(f.data) == 0 && f.fail && f.failWithData {
+		return n, errIOFault
+	}
 	return n, nil
+}
+
+// pickFault chooses where the reader fails: at a value boundary (after k
+// complete values and the separator of the last one; k = 0..n) or in the
+// middle of value k. It returns the byte offset at which the stream is cut and
+// k, the number of values that are complete before the fault.
+func pickFault(r *vlib.Rand, lead int, starts, ends, sepEnds []int) (off, k int, kind string) {
+	n := len(starts)
+	var mids []int
+	for i := range starts {
+		if ends[i]-starts[i] >= 2 {
+			mids = append(mids, i)
+		}
+	}
+	if len(mids) > 0 && r.Chance(1, 3) {
+		k = vlib.Pick(r, mids)
+		return starts[k] + r.Range(1, ends[k]-starts[k]-1), k, "mid-value"
+	}
+	k = r.Range(0, n)
+	if k == 0 {
+		return r.Range(0, lead), 0, "boundary"
+	}
+	return sepEnds[k-1], k, "boundary"
 }
 func (f *fragReader) Close() error { f.closes++; return nil }
 
@@ -203,6 +239,8 @@ type spec struct {
 	vals     []el   // source contents as list semantics (json: up to and incl. first bad token)
 	jsonText string
 	chunks   []int
+	fault    string // "" | "boundary" | "mid-value": the reader fails with a non-EOF error after jsonText
+	faultWD  bool   // error returned together with the last bytes
 	layers   []layer
 	consumer string // "drain" | "partial" | "readall" | "readallresults"
 	partialN int
@@ -318,7 +356,7 @@ func build(s *spec, depth int) *built {
 		var src iter.Iter[int] = &countIter[int]{inner: iter.FromSlice(ints), c: b.cnt}
 		cur = iter.ToResultIter(src)
 	case "json":
-		b.reader = &fragReader{data: []byte(s.jsonText), chunks: s.chunks}
+		b.reader = &fragReader{data: []byte(s.jsonText), chunks: s.chunks, fail: s.fault != "", failWithData: s.faultWD}
 		cur = &countIter[el]{inner: iter.FromReaderJSON[int](b.reader), c: b.cnt}
 	}
 	for _, l := range s.layers[:depth] {
@@ -482,6 +520,9 @@ func culprit(s *spec, bad func(verdict) bool) string {
 		v, _, _ := judge(s, d)
 		if bad(v) {
 			if d == 0 {
+				if s.fault != "" {
+					return "source-" + s.srcKind + "-iofault-" + s.fault
+				}
 				return "source-" + s.srcKind
 			}
 			return s.layers[d-1].kindKey()
@@ -533,11 +574,14 @@ func genSpec(k *vlib.Case, jsonOnly bool) *spec {
 		if r.Chance(1, 4) {
 			sb.WriteString(vlib.Pick(r, seps))
 		}
+		lead := sb.Len()
 		badAt := -1
 		if r.Chance(2, 5) && n > 0 {
 			badAt = r.Intn(n)
 		}
-		bads := []string{`"x"`, `nope`, `1.5`, `{`, `[1]`, `99999999999999999999999`, `tru`}
+		withFault := badAt < 0 && r.Chance(1, 3)
+		var starts, ends, sepEnds []int
+		bads := []string{`"x"`, `nope`, `1.5`, `{`, `[1]`, `99999999999999999999999`, `tru`, `]`, `}`, `]`, `}`}
 		stopped := false
 		for i := 0; i < n; i++ {
 			if i == badAt {
@@ -551,13 +595,23 @@ func genSpec(k *vlib.Case, jsonOnly bool) *spec {
 				continue
 			}
 			v := genVal()
+			starts = append(starts, sb.Len())
 			sb.WriteString(strconv.Itoa(v))
+			ends = append(ends, sb.Len())
 			sb.WriteString(vlib.Pick(r, seps))
+			sepEnds = append(sepEnds, sb.Len())
 			if !stopped {
 				s.vals = append(s.vals, el{Val: v})
 			}
 		}
 		s.jsonText = sb.String()
+		if withFault {
+			// list semantics: the values complete before the fault, then exactly one error item
+			off, kk, kind := pickFault(r, lead, starts, ends, sepEnds)
+			s.jsonText = s.jsonText[:off]
+			s.vals = append(append([]el(nil), s.vals[:kk]...), el{Err: errSentinel})
+			s.fault, s.faultWD = kind, r.Bool()
+		}
 		if r.Chance(2, 3) {
 			for i, m := 0, r.Range(1, 4); i < m; i++ {
 				s.chunks = append(s.chunks, r.Range(1, 9))
@@ -606,7 +660,7 @@ func genSpec(k *vlib.Case, jsonOnly bool) *spec {
 func describe(k *vlib.Case, s *spec) {
 	switch s.srcKind {
 	case "json":
-		k.Logf("source json %q chunks=%v  (list: %s)", s.jsonText, s.chunks, listStr(s.vals))
+		k.Logf("source json %q chunks=%v then-reader-fails=%q(with-data=%v)  (list: %s)", s.jsonText, s.chunks, s.fault, s.faultWD, listStr(s.vals))
 	default:
 		k.Logf("source %s %s", s.srcKind, listStr(s.vals))
 	}
